@@ -286,6 +286,11 @@ func (t *tree5) open(n *node5, lvl zerolog.Level, shape int, evctx string, id st
 		e = e.Err(err5)
 	case 2:
 		e = e.Object("o", ctxReader{}).Array("a", zerolog.Arr().Object(ctxReader{})).Dict("d", zerolog.Dict().Object("o", ctxReader{}))
+	case 4:
+		// the documented pattern e.Discard(): the event stays in the caller's hands until it is finalized, and
+		// nothing of it may reach a writer - nor may it disturb events opened meanwhile
+		e.Discard()
+		e = e.Str("late", "field-after-discard")
 	case 3:
 		e = e.Fields(map[string]interface{}{"fo": ctxReader{}}).
 			Func(func(e *zerolog.Event) { e.Str("fc", ctxVal(e.GetCtx())) }).
@@ -394,7 +399,7 @@ func c05tree(out *evid.Out, f *evid.Flags, ti int, concurrent bool) {
 	// logOne emits one event from n and checks it against n's own derivation path
 	check := func(p *pending5, when string) {
 		ws := p.n.w.W[p.w0:]
-		enabled := p.lvl >= p.n.level && (p.n.samp == nil || p.n.samp.admit)
+		enabled := p.lvl >= p.n.level && (p.n.samp == nil || p.n.samp.admit) && p.shape != 4
 		// the sampler of the node's own path - and no other - was consulted, once, iff the level gate passed
 		for i := range p.sc0 {
 			wantInc := int64(0)
@@ -508,7 +513,10 @@ func c05tree(out *evid.Out, f *evid.Flags, ti int, concurrent bool) {
 			for j := 0; j < k && i < len(perm); j, i = j+1, i+1 {
 				n := t.nodes[perm[i]]
 				evN++
-				p := &pending5{n: n, lvl: zerolog.Level(r.Intn(5) - 1), shape: r.Intn(4), id: fmt.Sprintf("t%de%d", ti, evN), w0: len(n.w.W)}
+				p := &pending5{n: n, lvl: zerolog.Level(r.Intn(5) - 1), shape: r.Intn(5), id: fmt.Sprintf("t%de%d", ti, evN), w0: len(n.w.W)}
+				if p.shape == 4 {
+					out.Count("discarded_events_kept_open", 1)
+				}
 				if r.Chance(1, 5) {
 					p.evctx = fmt.Sprintf("evctx-%d", evN)
 				}
